@@ -91,4 +91,21 @@ def showOutcome : Outcome → String
   | .errOp => "err:op"
   | .panic _ => "panic"
 
+
+/-- Answer to `assume <nodes>`: the executable graph hypotheses on the IR read back from the real
+graph (`ok` or `violated:` + the failing ones, in the harness's order). -/
+def assumeAnswer (g : Graph) : String :=
+  let bad := (if wfgB g then [] else ["wfg"]) ++ (if wfgoB g then [] else ["wfgo"]) ++
+    (if outsValueB g then [] else ["outs-value"]) ++ (if uniqueProducerB g then [] else ["unique-producer"])
+  if bad.isEmpty then "ok" else "violated:" ++ joinWith "," bad
+
+/-- Model-level wrappers (src/model.rs): `node_id(name)` = `find_node(name).ok_or(InvalidNodeName)`
+(kind `NodeNotFound`); `run_one` takes the first input / output id and fails with `InvalidNodeId`
+(kind `NodeNotFound`) when the model has none. -/
+def wrapAnswer (kind : String) : String :=
+  if kind == "unknown-name" then "err:node-not-found"
+  else if kind == "run-one-no-input" then "err:node-not-found"
+  else if kind == "known-name" then "ok"
+  else "bad-request"
+
 end RtenVerif.Driver.PlanCacheProto
